@@ -23,19 +23,19 @@ ASSUMPTIONS = ['vf/models/x690.py reader/writer (self-tested); variants that do 
                'time types are not segmented (the statement speaks of string and bit-string contents)']
 REPORT = ['modules', 'messages', 'evaluations', 'variant:indefinite', 'variant:padded', 'variant:segmented', 'variant:permuted',
           'combination_cells_covered', 'skipped_tree_does_not_match_type', 'carved_out']
-FLOORS = {'quick': {'evaluations': 20000, 'variant:indefinite': 3000, 'variant:padded': 3000, 'variant:segmented': 2000,
-                    'variant:permuted': 300}, 'thorough': {'evaluations': 300000}}
+FLOORS = {'quick': {'evaluations': 20000, 'variant:indefinite': 3000, 'variant:padded': 3000, 'variant:segmented': 2000, 'variant:permuted': 300},
+          'thorough': {'evaluations': 80000, 'variant:indefinite': 12000, 'variant:padded': 12000, 'variant:segmented': 8000, 'variant:permuted': 1200}}
 TIMEOUT = {'quick': 1800, 'thorough': 14000}
 
 
 def shards(tier):
-    return 32 if tier == 'quick' else 128
+    return 32 if tier == 'quick' else 64
 
 
 def params(tier):
     if tier == 'quick':
         return {'modules': 6, 'values': 8, 'variants': 12}
-    return {'modules': 24, 'values': 14, 'variants': 24}
+    return {'modules': 18, 'values': 12, 'variants': 18}
 
 
 def profile(tier):
